@@ -10,6 +10,7 @@ use pairing_plus::bls12_381::{FrRepr, G1, G2};
 use pairing_plus::{CurveProjective, Wnaf};
 use std::collections::{BTreeMap, HashMap};
 use std::panic::{catch_unwind, AssertUnwindSafe};
+use std::sync::Arc;
 use std::sync::Mutex;
 use std::time::Duration;
 
@@ -251,7 +252,7 @@ fn view_key(plan: &SchedPlan, op: &Op) -> String {
         // reuse of the per-thread buffers must not matter
         let mut o = op.clone();
         if o.a.len() > 3 {
-            o.a[3] = 0;
+            o.a[3] &= !1; // bit 0 = reuse the buffers; the other bits select the scalar
         }
         return o.key();
     }
@@ -346,7 +347,7 @@ fn ensure_refs(plan: &SchedPlan, refs: &mut Refs, ref_shared: &Shared) {
                     o.a[0] = 0;
                 }
                 if o.k.ends_with("wnaf_raw") && o.a.len() > 3 {
-                    o.a[3] = 0;
+                    o.a[3] &= !1;
                 }
                 with_objs(plan, 1, |mut objs| eval_caught(&o, ref_shared, &rs, &mut objs[0]).0)
             })
@@ -483,6 +484,60 @@ pub struct ExecCfg {
 
 /// Execute one plan: real OS threads, one running at a time, the schedule decides who.
 /// `on_stall` is called (and must not return) if a thread never gives the token back.
+// ---- use of the library while a simulated thread shuts down (ordinary build only)
+//
+// A caller may keep a per-thread object that is created when the thread starts and calls the library
+// from its destructor when the thread exits. Every simulated thread registers such a thread-local after
+// the harness's own and before its first library call; destructors run last-registered-first, so whatever
+// the library registered on this thread is torn down before it. From the destructor the thread - still
+// holding the token - evaluates its last operation once more, on fresh objects; only then does it report
+// "finished". The result must equal the isolated evaluation like any other.
+struct ExitCtx {
+    sim: Arc<Sim>,
+    me: usize,
+    shared: *const Shared,
+    rs: *const RunShared,
+    op: Option<Op>,
+    out: Arc<Mutex<Option<(Op, Outcome)>>>,
+    yields_total: Arc<Mutex<u64>>,
+}
+struct ExitSlot(std::cell::RefCell<Option<ExitCtx>>);
+impl Drop for ExitSlot {
+    fn drop(&mut self) {
+        if let Some(cx) = self.0.borrow_mut().take() {
+            if let Some(op) = cx.op.clone() {
+                let mut tl = ThreadObjs::new();
+                let (outcome, _) = unsafe { eval_caught(&op, &*cx.shared, &*cx.rs, &mut tl) };
+                *cx.out.lock().unwrap() = Some((op, outcome));
+            }
+            finish_thread(&cx.sim, cx.me, &cx.yields_total);
+        }
+    }
+}
+thread_local! { static EXIT_SLOT: ExitSlot = const { ExitSlot(std::cell::RefCell::new(None)) }; }
+
+fn finish_thread(sim: &Arc<Sim>, me: usize, yields_total: &Mutex<u64>) {
+    sim.no_wait[me].store(true, std::sync::atomic::Ordering::SeqCst);
+    *yields_total.lock().unwrap() += tok::leave();
+    sim.give_back(me, true, "finished");
+}
+
+/// the operation a thread repeats from its exit destructor: its last one, made independent of the
+/// thread's objects (private context, fresh buffers); none for operations that need per-scenario views
+fn exit_op(op: &Op) -> Option<Op> {
+    if op.k.contains("wnaf_view") || op.k.ends_with("wnaf_poison") {
+        return None;
+    }
+    let mut o = op.clone();
+    if is_ctx_op(&o.k) && !o.a.is_empty() {
+        o.a[0] = 0;
+    }
+    if o.k.ends_with("wnaf_raw") && o.a.len() > 3 {
+        o.a[3] &= !1;
+    }
+    Some(o)
+}
+
 pub fn run_plan(plan: &SchedPlan, shared: &Shared, ref_shared: &Shared, refs: &mut Refs, cfg: &ExecCfg, on_stall: &dyn Fn(&SRun) -> ()) -> SRun {
     if !cfg.refs_after {
         ensure_refs(plan, refs, ref_shared);
@@ -492,7 +547,9 @@ pub fn run_plan(plan: &SchedPlan, shared: &Shared, ref_shared: &Shared, refs: &m
     let rs = RunShared::new(plan.nshared_ctx, plan.threads.iter().any(|t| RunShared::needs_prepared(&t.ops)));
     let results: Vec<Mutex<Vec<(Outcome, Vec<Claim>)>>> = (0..n).map(|_| Mutex::new(vec![])).collect();
     let progress: Vec<Mutex<(usize, bool)>> = (0..n).map(|_| Mutex::new((0usize, false))).collect(); // (ops completed, died)
-    let yields_total = Mutex::new(0u64);
+    let yields_total = Arc::new(Mutex::new(0u64));
+    let exit_results: Vec<Arc<Mutex<Option<(Op, Outcome)>>>> = (0..n).map(|_| Arc::new(Mutex::new(None))).collect();
+    let exit_flush = !crate::mc::instrumented();
     let mut decisions: Vec<usize> = vec![];
     let mut exec_order: Vec<(usize, usize)> = vec![]; // (thread, op index) in completion order
     let mut stalled: Option<String> = None;
@@ -506,9 +563,16 @@ pub fn run_plan(plan: &SchedPlan, shared: &Shared, ref_shared: &Shared, refs: &m
                 let rs = &rs;
                 let results = &results;
                 let progress = &progress;
-                let yields_total = &yields_total;
+                let yields_total = yields_total.clone();
+                let exit_out = exit_results[i].clone();
                 s.spawn(move || {
                     tok::enter(&sim, i);
+                    if exit_flush {
+                        EXIT_SLOT.with(|e| {
+                            *e.0.borrow_mut() =
+                                Some(ExitCtx { sim: sim.clone(), me: i, shared: shared as *const Shared, rs: rs as *const RunShared, op: None, out: exit_out.clone(), yields_total: yields_total.clone() })
+                        });
+                    }
                     crate::mc::set_preempts(tp.preempt_at.clone());
                     if tp.stall_after.is_some() {
                         sim.no_wait[i].store(true, std::sync::atomic::Ordering::SeqCst);
@@ -543,9 +607,18 @@ pub fn run_plan(plan: &SchedPlan, shared: &Shared, ref_shared: &Shared, refs: &m
                             std::panic::panic_any(HarnessPanic);
                         }));
                     }
-                    sim.no_wait[i].store(true, std::sync::atomic::Ordering::SeqCst);
-                    *yields_total.lock().unwrap() += tok::leave();
-                    sim.give_back(i, true, "finished");
+                    if exit_flush {
+                        // finishing (and, for a thread that ended normally, one more evaluation of its last
+                        // operation) happens in the thread-local destructor
+                        let last = if died || tp.exit_after.is_some() || tp.stall_after.is_some() { None } else { tp.ops.last().and_then(exit_op) };
+                        EXIT_SLOT.with(|e| {
+                            if let Some(cx) = e.0.borrow_mut().as_mut() {
+                                cx.op = last;
+                            }
+                        });
+                    } else {
+                        finish_thread(&sim, i, &yields_total);
+                    }
                 });
             }
             // ---- the scheduler
@@ -892,6 +965,47 @@ pub fn run_plan(plan: &SchedPlan, shared: &Shared, ref_shared: &Shared, refs: &m
             cnt.inc("probe_shared_object_used_by_2plus_threads");
         }
     }
+    // ---- what the threads evaluated from their exit destructors
+    for (t, slot) in exit_results.iter().enumerate() {
+        if let Some((op, outcome)) = slot.lock().unwrap().take() {
+            cnt.inc("fault_fired_library_call_from_thread_exit_destructor");
+            dg.str("exit");
+            let key = view_key(plan, &op);
+            let expected = refs.map.get(&key);
+            let same = match (&outcome, expected) {
+                (Outcome::Image(a), Some(Outcome::Image(b))) => a == b,
+                (Outcome::LibPanic(_), Some(Outcome::LibPanic(_))) => true,
+                (_, None) => true, // no isolated evaluation under this key: nothing to compare with
+                _ => false,
+            };
+            // A thread-local with a destructor cannot be reached from a later destructor of the same thread:
+            // `LocalKey::with` panics there by std's documented contract, for a correct per-thread scratch
+            // buffer as much as for a broken one (negative control seeded/own/neg_correct_threadlocal_scratch).
+            // That is recorded as a probe, never as a verdict (DESIGN 6.1); a wrong VALUE is a verdict.
+            let tls_gone = matches!(&outcome, Outcome::LibPanic(m) if m.contains("Thread Local Storage value during or after destruction"));
+            if !same && tls_gone {
+                cnt.inc("probe_thread_local_already_destroyed_in_exit_destructor");
+            }
+            if !same && !tls_gone && violation.is_none() {
+                violation = Some(SViolation {
+                    invariant: "c20/usable-while-the-thread-exits".into(),
+                    thread: t,
+                    op_index: plan.threads[t].ops.len(),
+                    op: op.key(),
+                    expected: match expected {
+                        Some(Outcome::Image(e)) => short(e),
+                        Some(Outcome::LibPanic(m)) => format!("panic: {}", m),
+                        _ => "the isolated evaluation".into(),
+                    },
+                    observed: match &outcome {
+                        Outcome::Image(i) => short(i),
+                        Outcome::LibPanic(m) => format!("library panicked: {}", m),
+                        Outcome::HarnessDied => "thread killed".into(),
+                    },
+                });
+            }
+        }
+    }
     let yields_n: u64 = *yields_total.lock().unwrap();
     cnt.add("yields_inside_calls", yields_n);
     cnt.add("sync_points_reached", sim.sync_points.load(std::sync::atomic::Ordering::Relaxed));
@@ -1009,7 +1123,7 @@ const FAMS: &[Fam] = &[
     },
     Fam { name: "wnaf_half", cost: 100, gen: |r, c| if r.chance(1, 2) { gop("wnaf_half", &[ctxsel(r, c), rk(r)], r) } else { gop("wnaf_half_b", &[ctxsel(r, c), r.below(10), r.below(9)], r) } },
     Fam { name: "wnaf_view", cost: 300, gen: |r, _| if r.chance(1, 2) { gop("wnaf_view_b", &[r.below(2), rk(r)], r) } else { gop("wnaf_view_s", &[r.below(2), r.below(10)], r) } },
-    Fam { name: "wnaf_raw", cost: 600, gen: |r, c| gop("wnaf_raw", &[r.below(10), rk(r), r.range(c.min_window, c.max_window) - 2, r.below(2)], r) },
+    Fam { name: "wnaf_raw", cost: 600, gen: |r, c| gop("wnaf_raw", &[r.below(10), rk(r), r.range(c.min_window, c.max_window) - 2, r.below(8)], r) },
     Fam { name: "rec", cost: 1, gen: |r, _| if r.chance(1, 2) { gop("rec_scalar", &[r.below(nsc())], r) } else { gop("rec_num", &[r.below(4), (r.next() >> r.below(64)) as usize], r) } },
     Fam { name: "pre3", cost: 150, gen: |r, _| match r.below(7) { 0 => gop("pre3", &[r.below(10)], r), 1 | 2 => gop("pre3_reuse", &[r.below(10), rk(r)], r), 3 => gop("pre3_pack", &[r.below(10), rk(r), r.below(10)], r), _ => gop("mul3", &[r.below(10), rk(r)], r) } },
     Fam { name: "pre256", cost: 400, gen: |r, c| if c.with_256 && r.chance(4, 6) { gop("mul256", &[r.below(10), rk(r)], r) } else if r.chance(1, 2) { gop("pre256_reuse", &[r.below(10), rk(r)], r) } else if r.chance(1, 2) { gop("pre256_pack", &[r.below(10), rk(r), r.below(10)], r) } else { gop("pre256", &[r.below(10)], r) } },
@@ -1033,7 +1147,7 @@ const FAMS: &[Fam] = &[
     Fam { name: "h2c", cost: 1200, gen: |r, _| gop(if r.chance(1, 2) { "h2c" } else { "e2c" }, &[r.below(4), r.below(8), r.below(6), r.below(2)], r) },
     Fam { name: "insub", cost: 400, gen: |r, _| gop("insub", &[r.below(12)], r) },
     Fam { name: "prepare", cost: 300, gen: |r, _| gop("prepare", &[r.below(10)], r) },
-    Fam { name: "miller", cost: 1500, gen: |r, _| Op::new("miller", &[r.below(4), r.below(6), r.below(6), r.below(2)]) },
+    Fam { name: "miller", cost: 1500, gen: |r, _| Op::new("miller", &[r.below(4), r.below(6), r.below(6), r.below(6)]) },
     Fam { name: "finalexp", cost: 1500, gen: |r, _| Op::new("finalexp", &[r.below(6)]) },
     Fam {
         name: "pairing",
